@@ -173,6 +173,13 @@ class Builtins:
             return [Res(p, exc=VExc('TypeError'))]
         return [Res(p, mk_rec(recname, fields))]
 
+    def b_namedtuple__replace(self, ex, p, node, base, **kwargs):
+        r = RECS[base.name]
+        if any(k not in r.fields for k in kwargs):
+            return [Res(p, exc=VExc('ValueError'))]
+        fields = {f: (kwargs[f] if f in kwargs else rec_get(base, f)) for f in r.fields}
+        return [Res(p, mk_rec(base.name, fields))]
+
     def construct_other(self, ex, cls, args, kwargs, p, node):
         raise Unsupported(f'construction of {cls.qual} at {ex.where(node)}')
 
@@ -333,6 +340,9 @@ class Builtins:
             return self.opaque_attr(ex, base, attr, p, node)
         if isinstance(base, VExc):
             return [Res(p, exc=VExc('AttributeError'))]
+        if isinstance(base, VRec) and getattr(RECS.get(base.name), 'namedtuple', False) and attr == '_replace':
+            # namedtuple._replace(**fields): a NEW tuple; the receiver is unchanged
+            return [Res(p, VBuiltin('namedtuple._replace', self_v=base))]
         if isinstance(base, VObj) and base.kind in OBJ_CLASSES:
             # opaque object of a known repository class: its methods are called through their contracts
             fq = ex.repo.find_method(OBJ_CLASSES[base.kind], attr)
